@@ -38,20 +38,27 @@ def _once_per_motif(o, fn, loop, acc_name, key_vertex, what):
     idn = txt(b["id"])
     if txt(b["v"]) != key_vertex:
         o.violated(fn, m, f"{what}: multiplies the message of vertex `{txt(b['v'])}`, expected `{key_vertex}`")
-    guards = [s for s in loop.body if isinstance(s, ast.If) and any(isinstance(x, ast.Continue) for x in s.body)]
+    # the once-per-motif guard is a path condition of the multiplication: `if id in done: continue` before it,
+    # or an enclosing `if id not in done:`
+    facts = rules.known_facts(par, m, upto=loop)
     done = None
-    for g in guards:
-        bb = match(pat(f"{idn} in $d"), g.test)
-        if bb is not None and loop.body.index(g) < loop.body.index(par.stmt_of(m) if par.stmt_of(m) in loop.body else m):
-            done = txt(bb["d"])
-    adds = [s for s in loop.body if isinstance(s, ast.Expr) and isinstance(s.value, ast.Call) and match(pat(f"$d.add({idn})"), s.value) is not None]
+    for e_, pol in facts:
+        t_, p_ = rules.canon_fact(e_, pol)
+        if not p_ and t_.startswith(f"{idn} in "):
+            done = t_[len(f"{idn} in "):]
     if done is None:
-        o.violated(fn, m, f"{what}: no `if {idn} in done: continue` before the multiplication: a motif reached through several of its edges is multiplied once per edge")
+        if any(idn in astx.names_in(e_) for e_, _ in facts):
+            o.undecided(f"{what}: the condition on `{idn}` before the multiplication is not a membership test", fn, m)
+        else:
+            o.violated(fn, m, f"{what}: no `if {idn} in done: continue` before the multiplication: a motif reached through several of its edges is multiplied once per edge")
         return
-    if not adds or txt(adds[0].value.func.value) != done:
+    adds = [x for x in ast.walk(loop) if isinstance(x, ast.Expr) and isinstance(x.value, ast.Call) and match(pat(f"{done}.add({idn})"), x.value) is not None]
+    adds += [x for x in ast.walk(loop) if isinstance(x, ast.Expr) and isinstance(x.value, ast.Call) and match(pat(f"{done}.append({idn})"), x.value) is not None]
+    if not adds:
         o.violated(fn, m, f"{what}: the motif id is never recorded in `{done}` after its factor is taken: the once-per-motif guard never fires")
         return
-    if any(m is s for s in loop.body) and any(adds[0] is s for s in loop.body):
+    same_path = rules.canon_facts(rules.known_facts(par, adds[0], upto=loop)) == rules.canon_facts(facts)
+    if same_path:
         o.holds(fn, m, f"{what}: H[({key_vertex}, id)] multiplied iff id not yet in `{done}`, and id is recorded on the same path")
     else:
         o.undecided(f"{what}: factor / record are conditional", fn, m)
@@ -216,11 +223,17 @@ def run(ctx):
             vm = csc.resolve(jloop.iter)
             if match(pat(f"self._MPM.get_vertices_in_motif({label})"), vm) is None:
                 o.violated(ch, jloop, f"members are taken from `{txt(vm)}`, not from the vertices of this motif's label")
-            skip = [s for s in jloop.body if isinstance(s, ast.If) and any(isinstance(x, ast.Continue) for x in s.body)]
-            if skip and txt(skip[0].test) in (f"{j} == {focal}", f"{focal} == {j}") and jloop.body.index(skip[0]) == 0:
-                o.holds(ch, skip[0], "the focal vertex is skipped")
-            else:
+            # the skip of the focal vertex is a path condition of the store prods[j] = ...: `if j == focal: continue` or `if j != focal:`
+            pst = [s for s in ast.walk(jloop) if isinstance(s, ast.Assign) and isinstance(s.targets[0], ast.Subscript) and txt(s.targets[0].slice) == j]
+            want_skip = rules.canon_fact(astx.pat(f"{j} == {focal}"), False)
+            if pst and want_skip in rules.canon_facts(rules.known_facts(cpar, pst[0], upto=jloop)):
+                o.holds(ch, pst[0], "the focal vertex is skipped")
+            elif pst and not rules.known_facts(cpar, pst[0], upto=jloop):
                 o.violated(ch, jloop, "the focal vertex is not skipped: its own product enters its own message")
+            elif pst and all(astx.names_in(e_) <= {j, focal} for e_, _ in rules.known_facts(cpar, pst[0], upto=jloop)):
+                o.violated(ch, jloop, "the focal vertex is not skipped: its own product enters its own message")
+            else:
+                o.undecided("skip of the focal vertex not recognised", ch, jloop)
             nls = [s for s in jloop.body if isinstance(s, ast.For)]
             if len(nls) != 1:
                 o.undecided("neighbour loop not found", ch, jloop)
@@ -256,7 +269,8 @@ def run(ctx):
         else:
             v = txt(vl[0].target)
             nls = [s for s in vl[0].body if isinstance(s, ast.For)]
-            if len(nls) == 1 and match(pat(f"self._MPM._G.neighbors({v})"), nls[0].iter) is not None:
+            scv = Scope(th.node)
+            if len(nls) == 1 and match(pat(f"self._MPM._G.neighbors({v})"), scv.resolve(nls[0].iter)) is not None:
                 accs = [s for s in vl[0].body if isinstance(s, (ast.Assign, ast.AnnAssign)) and astx.const_value(s.value) == 1]
                 acc = txt(accs[0].targets[0] if isinstance(accs[0], ast.Assign) else accs[0].target) if accs else "prod"
                 _once_per_motif(o, th, nls[0], acc, v, "final vertex product")
@@ -293,9 +307,9 @@ def run(ctx):
             name_kw = next((k.value for k in gcall.keywords if k.arg == "name"), None)
             parts = set()
             if isinstance(name_kw, ast.JoinedStr):
-                parts = {txt(v.value) for v in name_kw.values if isinstance(v, ast.FormattedValue)}
+                parts = {txt(rsc.resolve(v.value)) for v in name_kw.values if isinstance(v, ast.FormattedValue)}
             elif isinstance(name_kw, ast.Tuple):
-                parts = {txt(e) for e in name_kw.elts}
+                parts = {txt(rsc.resolve(e)) for e in name_kw.elts}
             need = {rf, f"self._MPM.get_motif_ID({rl})"}
             if name_kw is None:
                 o.violated(re_, gcall, "the motif graph is unnamed: the evaluator's structural caches (keyed by name) return another motif's structure")
